@@ -10,7 +10,7 @@
    getline returns each line WITH its newline; the last line comes without one when the file does not end in a newline.
    model/Fileset.v takes the list of names as given (w_set_lines); this file says which list a given text is. *)
 From Coq Require Import NArith List.
-From Mtbl Require Import model.Bytes.
+From Mtbl Require Import model.Bytes model.Order.
 Import ListNotations.
 Local Open Scope N_scope.
 
@@ -33,3 +33,14 @@ Definition setfile_name (setdir line : bytes) : bytes :=
   cstr (rstrip_nl (pre ++ cstr line)).
 
 Definition setfile_names (setdir text : bytes) : list bytes := map (setfile_name setdir) (split_lines [] text).
+
+(* what my_fileset_reload keeps of them: the names whose path exists (stat), sorted (qsort with strcmp - for NUL-free
+   strings the order of bcmp), one entry per path (the repair F12) *)
+Fixpoint insert_uniq (x : bytes) (l : list bytes) : list bytes :=
+  match l with
+  | [] => [x]
+  | y :: tl => match bcmp x y with Lt => x :: l | Eq => l | Gt => y :: insert_uniq x tl end
+  end.
+Definition sort_uniq (l : list bytes) : list bytes := fold_right insert_uniq [] l.
+Definition loaded_names (path_exists : bytes -> bool) (setdir text : bytes) : list bytes :=
+  sort_uniq (filter path_exists (setfile_names setdir text)).
